@@ -149,6 +149,9 @@ where
     iter: LineColIterator<io::Bytes<R>>,
     /// Temporary storage of peeked byte.
     ch: Option<u8>,
+    /// Position in front of the peeked byte; only meaningful while `ch` holds
+    /// a byte, as `iter` has already advanced past that byte then.
+    ch_position: Position,
 }
 
 /// S-expression input source that reads from a slice of bytes.
@@ -184,6 +187,7 @@ where
         IoRead {
             iter: LineColIterator::new(reader.bytes()),
             ch: None,
+            ch_position: Position { line: 1, column: 0 },
         }
     }
 }
@@ -262,14 +266,21 @@ where
     fn peek(&mut self) -> Result<Option<u8>> {
         match self.ch {
             Some(ch) => Ok(Some(ch)),
-            None => match self.iter.next() {
-                Some(Err(err)) => Err(Error::io(err)),
-                Some(Ok(ch)) => {
-                    self.ch = Some(ch);
-                    Ok(self.ch)
+            None => {
+                let position = Position {
+                    line: self.iter.line(),
+                    column: self.iter.col(),
+                };
+                match self.iter.next() {
+                    Some(Err(err)) => Err(Error::io(err)),
+                    Some(Ok(ch)) => {
+                        self.ch = Some(ch);
+                        self.ch_position = position;
+                        Ok(self.ch)
+                    }
+                    None => Ok(None),
                 }
-                None => Ok(None),
-            },
+            }
         }
     }
 
@@ -279,16 +290,24 @@ where
     }
 
     fn position(&self) -> Position {
-        Position {
-            line: self.iter.line(),
-            column: self.iter.col(),
+        match self.ch {
+            // The peeked byte has not been consumed yet, although the
+            // LineColIterator has already advanced past it.
+            Some(_) => self.ch_position,
+            None => Position {
+                line: self.iter.line(),
+                column: self.iter.col(),
+            },
         }
     }
 
     fn peek_position(&self) -> Position {
         // The LineColIterator updates its position during peek() so it has the
         // right one here.
-        self.position()
+        Position {
+            line: self.iter.line(),
+            column: self.iter.col(),
+        }
     }
 
     fn byte_offset(&self) -> usize {
